@@ -106,3 +106,62 @@ Definition lpm_entry_matches (entry lookup : bytes) : bool :=
 (* what the operator meant: src lies in net/plen *)
 Definition in_prefix (plen : N) (net src : bytes) : bool :=
   N.shiftr (be_val net) (32 - plen) =? N.shiftr (be_val src) (32 - plen).
+
+(* ------------------------------------------------------------------ MAC: hardware addresses of any length 0..16 *)
+(* pkg/dhcp hands req.ClientHWAddr (= chaddr[:hlen], hlen 0..16) to ebpf.MACToUint64; the program always reads the first
+   six bytes of the 16-byte chaddr field, whatever hlen says.  A client fills chaddr with its hlen address bytes and zeros. *)
+Definition chaddr_of (mac : bytes) : bytes := firstn 16 (mac ++ zeros 16).
+Definition c_mac_key_dhcp_chaddr (mac : bytes) : bytes := key_u64 (c_mac_u64_dhcp (chaddr_of mac)).
+Definition mac_len_guard (mac : bytes) : bool := Nat.leb 6 (List.length mac).
+
+(* antispoof.AddBinding / AddBindingV6: len(mac) != 6 -> error "invalid MAC address", nothing is written;
+   antispoof.RemoveBinding has no length check: macToUint64 indexes mac[0..5] and panics below 6 bytes *)
+Definition go_mac_antispoof_add (mac : bytes) : option bytes :=
+  if Nat.eqb (List.length mac) 6 then Some (go_mac_key_antispoof mac) else None.
+Definition go_mac_antispoof_remove_panics (mac : bytes) : bool := Nat.ltb (List.length mac) 6.
+
+(* ------------------------------------------------------------------ circuit-id: the extraction as coded (two branches) *)
+(* opts = the DHCP options area (bytes from offset 240 of the BOOTP message; bytes beyond the list are the zeros of
+   the frame), avail = number of option bytes in front of data_end *)
+Definition ob (opts : bytes) (i : nat) : N := nth i opts 0.
+Definition key_at (opts : bytes) (off n : nat) : bytes :=
+  map (fun i => if Nat.ltb i n then ob opts (off + i) else 0) (seq 0 CID_LEN).
+Definition cid_len_ok (n : N) (dataoff avail : nat) : bool :=
+  (0 <? n) && (n <=? N.of_nat CID_LEN) && Nat.leb (dataoff + N.to_nat n) avail.
+
+(* branch 1: option 82 right after the message type, [53][1][x][82][len][1][cid_len][cid...] *)
+Definition extract_b1 (opts : bytes) (avail : nat) : option bytes :=
+  if ob opts 3 =? 82 then
+    let l := ob opts 4 in
+    if (4 <=? l) && Nat.leb (5 + N.to_nat l) avail then
+      if ob opts 5 =? 1 then
+        let n := ob opts 6 in
+        if cid_len_ok n 7 avail then Some (key_at opts 7 (N.to_nat n)) else None
+      else None
+    else None
+  else None.
+(* branch 2, one position of the scan 12..19: [82][len][1][cid_len][cid...] *)
+Definition extract_at (opts : bytes) (avail pos : nat) : option bytes :=
+  if (ob opts pos =? 82) && Nat.leb (pos + 8) avail then
+    let l := ob opts (pos + 1) in
+    if (4 <=? l) && (ob opts (pos + 2) =? 1) then
+      let n := ob opts (pos + 3) in
+      if cid_len_ok n (pos + 4) avail then Some (key_at opts (pos + 4) (N.to_nat n)) else None
+    else None
+  else None.
+Fixpoint extract_scan (opts : bytes) (avail : nat) (ps : list nat) : option bytes :=
+  match ps with
+  | [] => None
+  | p :: t => match extract_at opts avail p with Some k => Some k | None => extract_scan opts avail t end
+  end.
+Definition scan_positions : list nat := [12; 13; 14; 15; 16; 17; 18; 19]%nat.
+Definition c_extract_cid (opts : bytes) (avail : nat) : option bytes :=
+  if Nat.leb 64 avail then
+    match extract_b1 opts avail with
+    | Some k => Some k
+    | None => extract_scan opts avail scan_positions
+    end
+  else None.
+(* the circuit-id [cid] sits at data offset [off] of the options *)
+Definition embedded (opts : bytes) (off : nat) (cid : bytes) : Prop :=
+  forall i, (i < List.length cid)%nat -> ob opts (off + i) = nth i cid 0.
